@@ -98,7 +98,20 @@ def spec_select_active(E, ex, self, target, had):
     return LabelSet(lambda x: And(prior.mem(x), Not(And(hr, lst_mem(tr, x))), Not(And(hc, lst_mem(tc, x)))), prior.ord, "SelectActive spec")
 
 
+def spec_select_types(E, ex, self, target, had):
+    """children (in insertion order) whose class is in include_types and not in exclude_types, restricted to the prior selection when there is one (even an empty one)"""
+    from pyvc.ext_frames import child_name_order, types_sel
+    from pyvc.heap import cls_f, StrV
+
+    prior = entry_selected(ex, self, target)
+    kid = lambda x: E.dict_at(target, "children", StrV(x), "Node").term
+    inc = lambda x: types_sel(self.term, "include_types", cls_f(kid(x)))
+    exc = lambda x: types_sel(self.term, "exclude_types", cls_f(kid(x)))
+    return LabelSet(lambda x: And(E.dict_has(target, "children", StrV(x)), inc(x), Not(exc(x)), Implies(had, prior.mem(x))), lambda x: child_name_order(target.term, x), "SelectTypes spec")
+
+
 SPECS = {
+    "SelectTypes": spec_select_types,
     "SelectActive": spec_select_active,
     "SelectAll": spec_select_all,
     "SelectThese": spec_select_these,
